@@ -1,7 +1,7 @@
 (* Dispatcher: one entry point for every executable model function. *)
 From Coq Require Import List ZArith Arith Bool.
 From MsmV Require Import Lib.Result Lib.PyList Lib.Sorting Run.Wire.
-From MsmV Require Import Model.Labels.
+From MsmV Require Import Lib.QMat Model.Labels Model.StateTraj Model.Msm Proofs.MsmFacts.
 Import ListNotations.
 Local Open Scope Z_scope.
 
@@ -39,12 +39,26 @@ Definition run_labels (e : Z) (a : list Z) : option (list Z) :=
     | None => None end
   else None.
 
+Definition run_msm (e : Z) (a : list Z) : option (list Z) :=
+  if e =? 101 then
+    match dpair dnested dnat a with
+    | Some ((ts, lag), _) =>
+        let st := unique ts in
+        Some (eres (fun p => eQmat (fst p) ++ eZs (snd p)) (estimate_markov_model ts lag)
+              ++ eZs st
+              ++ eZmat (map (fun x => map (fun y => Z.of_nat (Label_C lag ts x y)) st) st))
+    | None => None end
+  else None.
+
 Definition run (req : list Z) : list Z :=
   match req with
   | [] => malformed
   | e :: a =>
       match run_labels e a with
       | Some r => r
+      | None =>
+      match run_msm e a with
+      | Some r => r
       | None => malformed
-      end
+      end end
   end.
